@@ -357,6 +357,29 @@ fn history<F: Family>(input: &Input, ctx: &mut Ctx) -> CaseResult {
     Ok(())
 }
 
+/// Packet values that came out of a decoder (re-spelled, leniently framed, mutated frames included) go through every
+/// encoder entry point like constructed ones: whatever spelling a value was decoded from, all entry points agree on it.
+fn case_decoded<F: Family>(input: &Input, ctx: &mut Ctx) -> CaseResult {
+    let mut t = Tape::new(input.tape());
+    let cfg = crate::gen::cfg_mix(&mut t, ctx.thorough);
+    let (b, origin) = crate::corpus::gen_input::<F>(&mut t, &cfg);
+    let q = match F::decode(&b) {
+        Ok(Some(q)) => Some(q),
+        _ => fam::dec_poll::<F>(&b).result.ok().map(|o| o.pkt),
+    };
+    match q {
+        Some(q) => {
+            entry_points::<F>(&q, &mut t, ctx).map_err(|v| Violation::new(format!("packet decoded from {} [{}]: {}", hex_short(&b, 96), origin, v.msg)))?;
+            ctx.label("decoded-value-encoded");
+            ctx.label(&format!("decoded-from:{}", origin));
+        }
+        None => ctx.label("not-accepted"),
+    }
+    Ok(())
+}
+
+pub const SUB_D3: Sub = Sub { name: "c09.decoded-values.v3", f: case_decoded::<V3> };
+pub const SUB_D5: Sub = Sub { name: "c09.decoded-values.v5", f: case_decoded::<V5> };
 pub const SUB_H3: Sub = Sub { name: "c09.history.v3", f: history::<V3> };
 pub const SUB_H5: Sub = Sub { name: "c09.history.v5", f: history::<V5> };
 pub const SUB_S3: Sub = Sub { name: "c09.sized.v3", f: case_sized::<V3> };
@@ -367,7 +390,7 @@ pub const SUB_T3: Sub = Sub { name: "c09.typed.v3", f: case_typed::<V3> };
 pub const SUB_T5: Sub = Sub { name: "c09.typed.v5", f: case_typed::<V5> };
 
 pub fn subs() -> Vec<Sub> {
-    vec![SUB_V3, SUB_V5, SUB_T3, SUB_T5, SUB_S3, SUB_S5, SUB_H3, SUB_H5]
+    vec![SUB_V3, SUB_V5, SUB_T3, SUB_T5, SUB_S3, SUB_S5, SUB_H3, SUB_H5, SUB_D3, SUB_D5]
 }
 
 pub fn run(env: &mut Env) -> RunResult {
@@ -376,6 +399,12 @@ pub fn run(env: &mut Env) -> RunResult {
     env.run_tapes(SUB_V5, n * 2, 240)?;
     env.run_tapes(SUB_T3, n / 2, 140)?;
     env.run_tapes(SUB_T5, n, 240)?;
+    env.run_tapes(SUB_D3, n / 2, 260)?;
+    env.run_tapes(SUB_D5, n, 360)?;
+    for s in ["c09.decoded-values.v3", "c09.decoded-values.v5"] {
+        env.require(s, "decoded-value-encoded");
+        env.require(s, "decoded-from:respelled");
+    }
     env.run_tapes(SUB_H3, n / 2, 400)?;
     env.run_tapes(SUB_H5, n / 2, 500)?;
     env.require("c09.history.v3", "two-encodes-in-flight");
